@@ -21,7 +21,7 @@ STANDINS = os.path.join(os.path.dirname(os.path.dirname(os.path.abspath(__file__
 
 
 def plan(tier, seed):
-    return sb.plan(tier, seed, per_shard_quick=8, per_shard_thorough=200, extra={"extra_path": [STANDINS]})
+    return sb.plan(tier, seed, per_shard_quick=14, per_shard_thorough=450, extra={"extra_path": [STANDINS]})
 
 
 def config_fn(rng):
